@@ -676,7 +676,10 @@ def _nd(rep, model, thorough):
     # growing in every axis, and mixed (growing in one axis, shrinking in
     # another) with the total size growing, shrinking and unchanged
     configs = [((2, 3), (4, 4)), ((2, 2, 2), (3, 3, 3)),
-               ((3, 4), (5, 2)), ((2, 4), (4, 3)), ((2, 3), (3, 2))]
+               ((3, 4), (5, 2)), ((2, 4), (4, 3)), ((2, 3), (3, 2)),
+               # an axis that keeps its size, with non-zero offset entries
+               # for it (a scalar offset is broadcast to every axis)
+               ((3, 4), (3, 7)), ((4, 3), (2, 3))]
     if thorough:
         configs.append(((2, 3, 2), (4, 4, 3)))
         configs.append(((3, 2, 3), (2, 4, 2)))
@@ -685,19 +688,21 @@ def _nd(rep, model, thorough):
         for mode in ('constant', 'periodic', 'symmetric', 'order0',
                      'order1'):
             for direction in ('forward', 'adjoint'):
-                offs = [range(abs(so - si) + 1) for si, so in zip(
-                    shape_in, shape_out)]
+                offs = [range(abs(so - si) + 1) if so != si else range(3)
+                        for si, so in zip(shape_in, shape_out)]
                 bad = []
                 cnt = 0
                 for offset in itertools.product(*offs):
+                    # the offset of an axis that keeps its size is ignored
+                    eff = [0 if si == so else o for si, so, o in zip(
+                        shape_in, shape_out, offset)]
                     if not all(admissible(si, so, o, mode) for si, so, o in
-                               zip(shape_in, shape_out, offset)):
+                               zip(shape_in, shape_out, eff)):
                         continue
                     cnt += 1
                     n += 1
                     refs = [reference(si, so, o, mode)
-                            for si, so, o in zip(shape_in, shape_out,
-                                                 offset)]
+                            for si, so, o in zip(shape_in, shape_out, eff)]
                     if direction == 'forward':
                         x = symbols('x', shape_in)
                         want = x.a
